@@ -76,7 +76,7 @@ for d in sorted(glob.glob(os.path.join(VERIF, "seeded", "*"))):
     if not os.path.exists(mp):
         continue
     m = json.load(open(mp))
-    rnd = {"A": 1, "B": 1, "C": 2, "D": 2, "E": 3, "F": 3, "G": 4, "H": 4}.get(m["id"].split("-")[-1], 0)
+    rnd = m.get("round") or {"A": 1, "B": 1, "C": 2, "D": 2, "E": 3, "F": 3, "G": 4, "H": 4}.get(m["id"].split("-")[-1], 0)
     def v(chk):
         r = (chk or {}).get(m.get("property"), {})
         vl = r.get("violation_lines") or []
@@ -89,7 +89,7 @@ out.append("Summary (own property's check; `weak` = reported only as `no-failing
 out.append("")
 out.append("| round | changes | first run: caught / weak / missed | now: caught / weak / missed |")
 out.append("|---|---|---|---|")
-for rnd in (1, 2, 3, 4):
+for rnd in (1, 2, 3, 4, 5):
     n = sum(cnt[(rnd, "now", k)] for k in ("caught", "weak", "missed"))
     out.append(f"| {rnd} | {n} | {cnt[(rnd,'first','caught')]} / {cnt[(rnd,'first','weak')]} / {cnt[(rnd,'first','missed')]} | {cnt[(rnd,'now','caught')]} / {cnt[(rnd,'now','weak')]} / {cnt[(rnd,'now','missed')]} |")
 mxp = os.path.join(VERIF, "seeded", "MATRIX.json")
